@@ -11,28 +11,29 @@ CONSTANTS Kinds,            \* getter kinds of the instance
           Bounds(_)         \* candidate min/max values of a bounded kind
 
 VARIABLES present, vals,    \* the parameter: absent, or its values
+          zero,             \* ... or present with zero values (then present = FALSE, vals = <<>>)
           call,             \* "none" | the call made
           last,             \* its outcome
           store             \* the caller's store dict for the name: [set |-> BOOLEAN, v, vs]
 
-vars == <<present, vals, call, last, store>>
+vars == <<present, vals, zero, call, last, store>>
 
 NoCall == [kind |-> "none", required |-> FALSE, hasdef |-> FALSE, store |-> FALSE,
            hasmin |-> FALSE, min |-> 0, hasmax |-> FALSE, max |-> 0, bat |-> FALSE]
 Unset  == [set |-> FALSE, v |-> 0, vs |-> <<>>]
 
-Init == /\ \/ present = FALSE /\ vals = <<>>
-           \/ present = TRUE /\ vals \in UNION {[1..n -> 1..NV] : n \in 1..MaxOcc}
+Init == /\ \/ present = FALSE /\ vals = <<>> /\ zero \in BOOLEAN
+           \/ present = TRUE /\ zero = FALSE /\ vals \in UNION {[1..n -> 1..NV] : n \in 1..MaxOcc}
         /\ call = NoCall /\ last = Out("none", "", 0, <<>>, FALSE) /\ store = Unset
 
 ConvsOf(kind) == IF kind = "has" THEN <<>> ELSE [i \in 1..Len(vals) |-> Conv(IF kind = "list_int" THEN "int" ELSE IF kind = "list" THEN "str" ELSE kind, vals[i])]
 
 Get(c) ==
     /\ call = NoCall /\ c.kind \in Kinds
-    /\ LET o == Outcome(present, ConvsOf(c.kind), c)
-       IN  /\ last' = o
+    /\ \E o \in Outcomes(present, zero, ConvsOf(c.kind), c) :
+           /\ last' = o
            /\ store' = IF o.stored THEN [set |-> TRUE, v |-> o.v, vs |-> o.vs] ELSE store
-    /\ call' = c /\ UNCHANGED <<present, vals>>
+    /\ call' = c /\ UNCHANGED <<present, vals, zero>>
 
 Plain(kind, r, d, s) == [NoCall EXCEPT !.kind = kind, !.required = r, !.hasdef = d, !.store = s]
 
@@ -63,12 +64,18 @@ GetterNeverMisreports ==
         /\ (call.kind \in BoundedKinds /\ call.hasmin) => last.v >= call.min
         /\ (call.kind \in BoundedKinds /\ call.hasmax) => last.v <= call.max
 ListsReportAll ==
-    (Made /\ last.res = "value" /\ call.kind \in ListKinds) => present /\ Len(last.vs) = Len(vals)
+    (Made /\ last.res = "value" /\ call.kind \in ListKinds) => (present \/ zero) /\ Len(last.vs) = Len(vals)
 (* absent parameter: error iff required, else exactly the default *)
 HasParamExact ==
-    (Made /\ call.kind = "has") => last.res = "value" /\ last.v = (IF present THEN 1 ELSE 0) /\ ~store.set
+    (Made /\ call.kind = "has") => /\ last.res = "value" /\ ~store.set
+                                   /\ (~zero => last.v = (IF present THEN 1 ELSE 0)) /\ last.v \in {0, 1}
 AbsentProtocol ==
-    (Made /\ ~present /\ call.kind # "has") => last.res = (IF call.required THEN "missing" ELSE IF call.hasdef THEN "default" ELSE "none")
+    (Made /\ ~present /\ ~zero /\ call.kind # "has") => last.res = (IF call.required THEN "missing" ELSE IF call.hasdef THEN "default" ELSE "none")
+(* present with zero values: every scalar getter behaves as for an absent parameter, nothing is stored *)
+ZeroValuesProtocol ==
+    (Made /\ zero /\ call.kind \notin ListKinds \cup {"has"}) =>
+        /\ last.res = (IF call.required THEN "missing" ELSE IF call.hasdef THEN "default" ELSE "none")
+        /\ ~store.set
 (* present parameter: required/default play no role; the outcome is a value or the 400-class error *)
 PresentProtocol ==
     (Made /\ present) => last.res \in {"value", "invalid"}
